@@ -232,13 +232,15 @@ class Recorder:
         def data(*a, **k):
             r = orig_data(*a, **k)
             # copy: the caller adds the prior IN PLACE when the result is an array
-            rec.data.append((a, k, np.array(r, dtype=float).copy()))
+            # (a complex result — negative lambda handed to the DSPL likelihood — is recorded by its real part)
+            rr = np.real(r) if np.iscomplexobj(r) else r
+            rec.data.append((a, k, np.array(rr, dtype=float).copy()))
             return r
 
         def single(*a, **k):
             n0, g0, k0, d0 = len(rec.normals), len(rec.gev), len(rec.kin), len(rec.data)
             r = orig_single(*a, **k)
-            rec.singles.append(float(np.squeeze(r)))
+            rec.singles.append(float(np.squeeze(np.real(r) if np.iscomplexobj(r) else r)))
             rec.spans.append((n0, len(rec.normals), g0, len(rec.gev), k0, d0))
             return r
 
